@@ -409,4 +409,67 @@ theorem C04_facts :
 example : [".datamon/x", ".conflicts", "./.checkpoints/s/p", "a/.datamon/x", ".datamonx", ".conflictsx", "..conflicts/x", "x"].map isGenerated
     = [true, true, true, false, false, false, false, false] := by decide
 
+
+/-! ### the source calls made explicit: a failing existence check changes nothing -/
+
+/-- **existence checks may fail at will**: as long as the reads are served, an upload whose
+    existence checks (`skipFile` → `Has`) fail on any set of files — or answer truthfully — produces
+    exactly the entries of the fault-free upload, with and without skip-missing -/
+theorem C04_has_fault_same {K : Type} (key : Bytes → K) (tree : List (String × Bytes)) (src : SrcCalls)
+    (hget : ∀ f, src.get f = some (tree.lookup f))
+    (hhas : ∀ f, src.has f = none ∨ src.has f = some (tree.lookup f).isSome) (skip : Bool) :
+    ∀ files : List String, uploadEntriesF key src files skip = uploadEntries key tree files skip := by
+  intro files
+  induction files with
+  | nil => simp [uploadEntriesF, uploadEntries]
+  | cons f r ih =>
+    simp only [uploadEntriesF, uploadEntries]
+    by_cases hg : isGenerated f = true
+    · simp only [hg, if_true]; exact ih
+    · simp only [hg, Bool.false_eq_true, if_false, hget f]
+      cases hl : tree.lookup f with
+      | none =>
+        rcases hhas f with hh | hh
+        · cases skip <;> simp [hh, ih]
+        · rw [hl] at hh
+          cases skip <;> simp [hh, ih]
+      | some c =>
+        rcases hhas f with hh | hh
+        · cases skip <;> simp [hh, ih]
+        · rw [hl] at hh
+          cases skip <;> simp [hh, ih]
+
+/-- **a failed read is never a silent skip** unless skip-missing asks for it: without skip-missing
+    the upload fails as soon as one considered file cannot be read -/
+theorem C04_get_fault_fails {K : Type} (key : Bytes → K) (src : SrcCalls) :
+    ∀ files : List String, (∃ f ∈ files, isGenerated f = false ∧ src.get f = none) →
+      uploadEntriesF key src files false = none := by
+  intro files
+  induction files with
+  | nil => intro h; simp at h
+  | cons f r ih =>
+    intro h
+    simp only [uploadEntriesF, Bool.false_and, Bool.false_eq_true, if_false]
+    by_cases hg : isGenerated f = true
+    · simp only [hg, if_true]
+      apply ih
+      obtain ⟨x, hx, hxg, hxe⟩ := h
+      rcases List.mem_cons.mp hx with rfl | hx'
+      · rw [hg] at hxg; cases hxg
+      · exact ⟨x, hx', hxg, hxe⟩
+    · simp only [hg, Bool.false_eq_true, if_false]
+      cases hgf : src.get f with
+      | none => rfl
+      | some o =>
+        cases o with
+        | none => rfl
+        | some c =>
+          have : uploadEntriesF key src r false = none := by
+            apply ih
+            obtain ⟨x, hx, hxg, hxe⟩ := h
+            rcases List.mem_cons.mp hx with rfl | hx'
+            · rw [hgf] at hxe; cases hxe
+            · exact ⟨x, hx', hxg, hxe⟩
+          simp [this]
+
 end Bundle
